@@ -3,6 +3,10 @@ ENGINES = [
     dict(name="jsonrt", path="harness/jsonrt", serves_properties=["C07"], kind_free_text="rapid generators + reference transform for EEBUS JSON"),
     dict(name="shipsim", path="harness/shipsim", serves_properties=["C01", "C03", "C04", "C06", "C07", "C08", "C09", "C11", "C14"],
          kind_free_text="two real ShipConnections + man-in-the-middle transport inside a testing/synctest bubble (virtual clock); rapid-generated scripts, JSON replay"),
+    dict(name="wsfault", path="harness/wsfault", serves_properties=["C12", "C13"],
+         kind_free_text="real ws.WebsocketConnection over gorilla/websocket over an in-memory fault-injecting net.Conn pair, synctest bubble"),
+    dict(name="mdnssim", path="harness/mdnssim", serves_properties=["C16", "C17", "C19"],
+         kind_free_text="real MdnsManager with fake provider / real AvahiProvider with a fake Avahi daemon / real hub as report sink, synctest bubble"),
 ]
 
 _PBT = "property-based testing (rapid): "
@@ -45,6 +49,30 @@ META = {
                 text="Model-based: arm/stop/advance sequences on the virtual clock against the reference model 'one live timer'.",
                 technique=_PBT + "model-based (reference timer model) on a virtual clock"),
 }
+
+META.update({
+    "C12": dict(engine="wsfault", design_ref="DESIGN.md 6/C12",
+                note="trusted: in-memory net.Conn mirrors a TCP socket; goroutine interleavings inside ws are sampled by the Go scheduler, not enumerated; "
+                     "the 'peer never reads again, write deadline expires' sub-case is out of reach of the virtual clock (mutex waiters freeze it) and is counted as inconclusive",
+                text="Generated races of 1-8 writer goroutines against a closing event on a real websocket connection; no panic, no hang, "
+                     "error after closure, gap-free prefix at the peer.",
+                technique=_PBT + "generated concurrent schedules with fault injection, history oracle (prefix consistency)"),
+    "C13": dict(engine="wsfault", design_ref="DESIGN.md 6/C13",
+                note="trusted: in-memory net.Conn mirrors a TCP socket (buffered, EOF after close); goroutine scan limited to the case's own bubble",
+                text="For generated sessions the fault position is enumerated: every k-th read and every k-th write of the session fails, plus peer "
+                     "close codes, EOF and local closes; oracle on error report, closed query, deliveries afterwards, pump goroutines and socket close.",
+                technique="fault enumeration over rapid-generated sessions (k-th I/O operation), resource-release oracle"),
+    "C16": dict(engine="mdnssim", design_ref="DESIGN.md 6/C16", note="trusted: fake Avahi daemon mirrors go-avahi's Server as far as the provider uses it",
+                text="Generated service configurations; round trip announce -> library's own TXT parser and entry processing; QR text against a reference parser.",
+                technique=_PBT + "round trip through the library's own parser + reference parser for the QR format"),
+    "C17": dict(engine="mdnssim", design_ref="DESIGN.md 6/C17", note="trusted: fake provider delivers resolver callbacks the way avahi/zeroconf providers do",
+                text="Model-based: generated resolver histories against a reference entry map, checked after every event; final report equals final set "
+                     "under bursts and GOMAXPROCS 1/2/16.",
+                technique=_PBT + "model-based (reference map) over generated event histories and scheduler settings"),
+    "C19": dict(engine="mdnssim", design_ref="DESIGN.md 6/C19", note="trusted: fake Avahi daemon (availability, object invalidation, Disconnected also on Shutdown())",
+                text="Model-based: generated daemon fault / API call histories on the virtual clock against the model (desired announcement, shutdown flag).",
+                technique=_PBT + "model-based with injected daemon faults on a virtual clock"),
+})
 
 _pending = "machinery for this property is not built yet (work in progress, see DESIGN.md section 6)"
 NOT_APPLICABLE = {("C%02d" % i): _pending for i in range(1, 21)}
